@@ -37,7 +37,29 @@
 //! another thread stores / overwrites / deletes in the default collection; after both were joined every
 //! answer must satisfy the cached-index oracle over the final data — a deleted key or an overwritten
 //! vector's score means an index that missed a completed mutation is being consulted:
-//! `stale-index:default:build_and_cache_index-overlapped-mutations`; `--probe 10` is the minimal witness).
+//! `stale-index:default:build_and_cache_index-overlapped-mutations`; `--probe 10` is the minimal witness),
+//! `partial` (operations that FAIL after part of their writes took effect, issued while an index is
+//! cached: `batch_store_embeddings` with an element longer than `VectorEngineConfig::max_dimension` at
+//! any position, in the sequential and in the rayon branch; `load_index` / `load_index_binary` of a file
+//! written by another engine that holds such an entry; single stores that are refused; batches refused
+//! by the up-front validation. The statement does not make a failing operation atomic, so after every
+//! `Err` the model follows the engine: each key the operation named is read back (`get_embedding`,
+//! `get_metadata`) and must hold either the vector it held before or the vector the operation was
+//! writing (`readback:<api>[failed]:value-never-written|stored-vector-lost` otherwise); a key whose
+//! vector changed is a data change like any other — the index cached before it must not be consulted
+//! (`stale-index:default:after:<api>[failed]`). Part `program` does the same after every refused store
+//! in the third of its programs that configure `max_dimension`), `bigk` (every k: the searches of all
+//! APIs — exhaustive, through the cached index of the default and of a named collection, through an
+//! explicit index incl. the re-ranking search, and `HNSWIndex::search` / `search_with_ef` directly —
+//! with k and ef far above the number of stored vectors: 10^5 … 2^31, 2^32+1, 2^40, 2^59, 2^60, usize::MAX/16,
+//! usize::MAX/2, usize::MAX-1, usize::MAX, judged by the same oracles ("the k, or all if fewer"). A work
+//! buffer sized from k ends in an allocation failure that no `catch_unwind` sees, so these cases run in
+//! child processes of this binary (`child-bigk`, address space limited to 4 GB): the child records the
+//! call it is about to make; a child that dies inside a search is reported as
+//! `huge-k:<api>:process-killed`, a child that does not finish is inconclusive. Every case is executed
+//! twice, first with the values from 2^59 up only — a request for that many elements is refused with
+//! a panic, which the usual oracles report as `cached:<api>:panic` / `hnsw:search:panic` — then with
+//! the whole list).
 //!
 //! Failure classes carry their own signature (`stale-index:<slot>:after:<api>`,
 //! `cached:<api>:<what>`, `exact:<api>:<what>`, `readback:<api>:<what>`); three by-products of the
@@ -787,6 +809,18 @@ fn short(v: &[f32]) -> Vec<f32> {
 
 static SIG_FILTER: std::sync::OnceLock<String> = std::sync::OnceLock::new();
 
+/// child-process mode (part `bigk`): the file that names the search call in progress
+static PROGRESS: std::sync::OnceLock<std::path::PathBuf> = std::sync::OnceLock::new();
+
+fn progress(state: &str, case_seed: u64, api: &str, k: usize) {
+    if let Some(p) = PROGRESS.get() {
+        let _ = std::fs::write(p, format!("{}\t{}\t{}\t{}", state, case_seed, api, k));
+    }
+}
+
+/// k (or ef) far above anything that is stored
+const HUGE: usize = 1 << 31;
+
 const HOSTILE_KEYS: [&str; 6] = ["emb:k0", "emb:k1", "", "a:b", "ключ", "coll:c0:emb:k0"];
 
 struct Ctx<'a> {
@@ -856,8 +890,15 @@ fn judged_search(
     }
     let fresh = uses_cache && space.cache == Cache::Fresh;
     let stored_dims = space.dims();
+    if k >= HUGE {
+        cx.r.count(if fresh { "huge-k:cached-mode" } else { "huge-k:exhaustive-mode" }, 1);
+    }
+    let case_seed = cx.case_seed;
     let attempt = |cx: &mut Ctx, space: &Space, first: bool| -> Result<Vec<SearchResult>, Bad> {
-        match catch_unwind(AssertUnwindSafe(run)) {
+        progress("calling", case_seed, api, k);
+        let out = catch_unwind(AssertUnwindSafe(run));
+        progress("returned", case_seed, api, k);
+        match out {
             Err(p) => {
                 let msg = panic_msg(&p);
                 let what = if !stored_dims.contains(&q.len()) { "panic-on-query-of-other-dimension" } else { "panic" };
@@ -981,7 +1022,12 @@ fn judged_rerank(cx: &mut Ctx, engine: &VectorEngine, index: &HNSWIndex, mapping
     cx.r.count(&format!("search:{}", api), 1);
     let n_same = space.data.values().filter(|e| e.v.len() == q.len()).count();
     let em = xm.engine();
+    if k >= HUGE {
+        cx.r.count("huge-k:search_with_hnsw_and_metric", 1);
+    }
+    progress("calling", cx.case_seed, api, k);
     let out = catch_unwind(AssertUnwindSafe(|| engine.search_with_hnsw_and_metric(index, mapping, q, k, &em)));
+    progress("returned", cx.case_seed, api, k);
     cx.eval(n_same >= 2);
     match out {
         Err(p) => cx.violation(format!("rerank:{}:{}:panic", api, xm.name()), format!("{} panicked: {} (metric {:?}, query {:?})", api, first_line(&panic_msg(&p)), xm, short(q))),
@@ -1117,6 +1163,78 @@ fn observe_repr(cx: &mut Ctx, engine: &VectorEngine, storage_key: &str) {
     }
 }
 
+fn meta_from_engine(m: &HashMap<String, TensorValue>) -> Md {
+    let mut out = Md::new();
+    for (k, v) in m {
+        match v {
+            TensorValue::Scalar(ScalarValue::Int(i)) => {
+                out.insert(k.clone(), MV::Int(*i));
+            }
+            TensorValue::Scalar(ScalarValue::String(s)) => {
+                out.insert(k.clone(), MV::Str(s.clone()));
+            }
+            _ => {}
+        }
+    }
+    out
+}
+
+/// An operation that names `attempted` (key, vector it was writing) returned an error. Nothing in
+/// the statement makes a failing operation atomic, so the model follows the engine: every named key
+/// is read back and must hold the vector it held before (or still be absent) or the vector the
+/// operation was writing. A key whose vector changed is a data change under the label `api` (an
+/// index cached before it may not be consulted any more). Returns the number of changed keys.
+fn resync_after_error(cx: &mut Ctx, engine: &VectorEngine, coll: Option<&str>, space: &mut Space, api: &'static str, attempted: &[(String, Vec<f32>)]) -> usize {
+    let mut changed = 0;
+    cx.r.count("failed-op:resyncs", 1);
+    for (key, v) in attempted {
+        let got = match coll {
+            None => engine.get_embedding(key),
+            Some(c) => engine.get_from_collection(c, key),
+        };
+        cx.r.count("failed-op:keys_read_back", 1);
+        match got {
+            Ok(g) => {
+                let meta = match coll {
+                    None => engine.get_metadata(key),
+                    Some(c) => engine.get_collection_metadata(c, key),
+                }
+                .map(|m| meta_from_engine(&m))
+                .unwrap_or_default();
+                let as_before = space.data.get(key).map_or(false, |e| vec_value_eq(&e.v, &g));
+                if as_before {
+                    // untouched, or rewritten with an equal vector: the vectors did not change
+                    if let Some(e) = space.data.get_mut(key) {
+                        e.meta = meta;
+                    }
+                    continue;
+                }
+                if !vec_value_eq(&g, v) {
+                    cx.violation(
+                        format!("readback:{}:value-never-written", api),
+                        format!("after the failed {} key {:?} holds {:?}, which is neither what it held before ({:?}) nor what the operation was writing ({:?})", api, key, short(&g), space.data.get(key).map(|e| short(&e.v)), short(v)),
+                    );
+                }
+                cx.log(format!("  {}: key {:?} now holds the vector the failed operation was writing (dim {})", api, key, g.len()));
+                space.put(key, g, meta, api);
+                changed += 1;
+            }
+            Err(_) => {
+                if space.data.contains_key(key) {
+                    cx.violation(format!("readback:{}:stored-vector-lost", api), format!("key {:?} was stored before the failed {} and cannot be read any more", key, api));
+                    space.del(key, api);
+                    changed += 1;
+                }
+            }
+        }
+    }
+    if changed > 0 {
+        cx.r.count("failed-op:with_partial_effect", 1);
+        cx.r.count("failed-op:keys_changed", changed as u64);
+    }
+    changed
+}
+
 fn hnsw_cfg(rng: &mut Rng, metric: Metric) -> HNSWConfig {
     let mut c = match rng.below(4) {
         0 => HNSWConfig::default(),
@@ -1163,11 +1281,17 @@ fn run_program(case_seed: u64, r: &mut Report, verbose: bool, scratch_base: &std
         c.sparse_threshold = *rng.pick(&[0.5f32, 0.5, 0.5, 0.0, 0.3, 0.9, 1.0]);
         c.parallel_threshold = *rng.pick(&[5000usize, 5000, 4, 16]);
         c.batch_parallel_threshold = *rng.pick(&[100usize, 100, 2, 5]);
+        // a third of the programs run under a dimension limit that every regular vector and query
+        // respects; stores of longer vectors are then refused (possibly in the middle of a batch)
+        if rng.chance(1, 3) {
+            c.max_dimension = Some(main_dim.max(alt_dim) + rng.below(3));
+        }
         c
     };
+    let max_dim = cfg.max_dimension;
     cx.log(format!(
-        "case: main_dim={} alt_dim={} mixed={}% keys={} hostile_keys={} ops={} sparse_threshold={} parallel_threshold={} batch_parallel_threshold={}",
-        main_dim, alt_dim, mixed_pct, n_keys, hostile, n_ops, cfg.sparse_threshold, cfg.parallel_threshold, cfg.batch_parallel_threshold
+        "case: main_dim={} alt_dim={} mixed={}% keys={} hostile_keys={} ops={} sparse_threshold={} parallel_threshold={} batch_parallel_threshold={} max_dimension={:?}",
+        main_dim, alt_dim, mixed_pct, n_keys, hostile, n_ops, cfg.sparse_threshold, cfg.parallel_threshold, cfg.batch_parallel_threshold, max_dim
     ));
     let engine = match VectorEngine::with_config(cfg) {
         Ok(e) => e,
@@ -1260,8 +1384,16 @@ fn run_program(case_seed: u64, r: &mut Report, verbose: bool, scratch_base: &std
         match op {
             0 | 1 => {
                 let key = pick_key(&mut rng);
-                let dim = pick_dim(&mut rng);
+                let mut dim = pick_dim(&mut rng);
+                let mut oversize = false;
+                if let Some(md) = max_dim {
+                    if rng.chance(1, 15) {
+                        dim = md + 1 + rng.below(4);
+                        oversize = true;
+                    }
+                }
                 let (v, kind) = if rng.chance(1, 60) { (Vec::new(), "empty") } else { gen_vec(&mut rng, dim, &pool_of(&def, dim)) };
+                let kind = if oversize && !v.is_empty() { "longer-than-max_dimension" } else { kind };
                 let with_meta = op == 1;
                 let meta = if with_meta { gen_meta(&mut rng) } else { Md::new() };
                 let api: &'static str = if with_meta { "store_embedding_with_metadata" } else { "store_embedding" };
@@ -1272,6 +1404,10 @@ fn run_program(case_seed: u64, r: &mut Report, verbose: bool, scratch_base: &std
                     Ok(()) => {
                         if v.is_empty() {
                             cx.violation(format!("store:{}:accepted-empty-vector", api), "empty vector stored".into());
+                        } else if oversize {
+                            // not this property's business; the queries below assume the limit holds
+                            cx.r.inconclusive("a vector longer than max_dimension was accepted");
+                            return;
                         } else {
                             cx.r.count(&format!("stored-kind:{}", kind), 1);
                             def.put(&key, v, meta, api);
@@ -1279,9 +1415,13 @@ fn run_program(case_seed: u64, r: &mut Report, verbose: bool, scratch_base: &std
                         }
                     }
                     Err(_) => {
-                        if !v.is_empty() {
+                        if !v.is_empty() && !oversize {
                             cx.r.count("store_errors_on_valid_vector", 1);
                         }
+                        // refused: whatever the engine holds for the key now is the data
+                        let failed: &'static str = if with_meta { "store_embedding_with_metadata[failed]" } else { "store_embedding[failed]" };
+                        cx.r.count(&format!("op:{}", failed), 1);
+                        resync_after_error(&mut cx, &engine, None, &mut def, failed, &[(key.clone(), v.clone())]);
                     }
                 }
             }
@@ -1293,8 +1433,15 @@ fn run_program(case_seed: u64, r: &mut Report, verbose: bool, scratch_base: &std
                 }
                 let mut inputs = Vec::new();
                 let mut any_empty = false;
+                let mut any_oversize = false;
                 for k in &keys {
-                    let dim = pick_dim(&mut rng);
+                    let mut dim = pick_dim(&mut rng);
+                    if let Some(md) = max_dim {
+                        if rng.chance(1, 8) {
+                            dim = md + 1 + rng.below(4);
+                            any_oversize = true;
+                        }
+                    }
                     let v = if rng.chance(1, 80) {
                         any_empty = true;
                         Vec::new()
@@ -1303,6 +1450,10 @@ fn run_program(case_seed: u64, r: &mut Report, verbose: bool, scratch_base: &std
                     };
                     inputs.push((k.clone(), v));
                 }
+                // (an element that was to be longer than the limit may have come out empty)
+                any_oversize = any_oversize && inputs.iter().any(|(_, v)| max_dim.map_or(false, |md| v.len() > md));
+                // the engine iterates the batch in the order given: the refused element sits anywhere
+                rng.shuffle(&mut inputs);
                 let res = engine.batch_store_embeddings(inputs.iter().map(|(k, v)| EmbeddingInput::new(k.clone(), v.clone())).collect());
                 cx.log(format!("batch_store_embeddings({:?}) -> {:?}", inputs.iter().map(|(k, v)| (k.clone(), v.len())).collect::<Vec<_>>(), res.as_ref().map(|b| b.stored_keys.len())));
                 cx.r.count("op:batch_store_embeddings", 1);
@@ -1310,6 +1461,9 @@ fn run_program(case_seed: u64, r: &mut Report, verbose: bool, scratch_base: &std
                     Ok(_) => {
                         if any_empty {
                             cx.violation("store:batch_store_embeddings:accepted-empty-vector".into(), "batch with an empty vector was accepted".into());
+                        } else if any_oversize {
+                            cx.r.inconclusive("a vector longer than max_dimension was accepted");
+                            return;
                         } else {
                             for (k, v) in inputs {
                                 def.put(&k, v, Md::new(), "batch_store_embeddings");
@@ -1318,12 +1472,15 @@ fn run_program(case_seed: u64, r: &mut Report, verbose: bool, scratch_base: &std
                         }
                     }
                     Err(_) => {
-                        // validation happens before anything is stored; an operation error after
-                        // partial progress would leave the model unsure — resynchronise from the engine
-                        if !any_empty {
+                        // an empty element is refused up front, an element longer than max_dimension
+                        // when its turn comes, i.e. after the elements before it were written (all
+                        // the others in the rayon branch): the model is resynchronised from the engine
+                        if !any_empty && !any_oversize {
                             cx.r.inconclusive("batch_store_embeddings failed on valid input");
                             return;
                         }
+                        cx.r.count("op:batch_store_embeddings[failed]", 1);
+                        resync_after_error(&mut cx, &engine, None, &mut def, "batch_store_embeddings[failed]", &inputs);
                     }
                 }
             }
@@ -1537,11 +1694,40 @@ fn run_program(case_seed: u64, r: &mut Report, verbose: bool, scratch_base: &std
                             }
                         },
                         Err(e) => {
-                            // a dimension constraint of the saved config can legitimately reject
-                            // nothing here (entries were accepted under it); anything else leaves the
-                            // model unsure
-                            cx.r.inconclusive(&format!("load_index failed: {}", first_line(&e.to_string())));
-                            return;
+                            // e.g. the saved configuration carries a dimension constraint that was set
+                            // after vectors of another dimension had been stored: the load replaces the
+                            // configuration, restores entries until one is refused and fails. The model
+                            // follows the engine (configuration and every key of the file).
+                            cx.r.count("op:load_index[failed]", 1);
+                            let _ = e;
+                            let attempted: Vec<(String, Vec<f32>)> = s.entries.iter().map(|(k, e)| (k.clone(), e.v.clone())).collect();
+                            match s.coll {
+                                None => {
+                                    resync_after_error(&mut cx, &engine, None, &mut def, "load_index[failed]", &attempted);
+                                }
+                                Some(c) => {
+                                    let n = colls.get_mut(c).unwrap();
+                                    match engine.get_collection_config(c) {
+                                        Some(cfg) => {
+                                            n.created = true;
+                                            n.dim = cfg.dimension;
+                                            n.metric = match cfg.distance_metric {
+                                                DistanceMetric::Cosine => Metric::Cos,
+                                                DistanceMetric::Euclidean => Metric::Euc,
+                                                DistanceMetric::DotProduct => Metric::Dot,
+                                            };
+                                        }
+                                        None => {
+                                            n.created = false;
+                                            n.dim = None;
+                                            n.metric = Metric::Cos;
+                                        }
+                                    }
+                                    engine.invalidate_hnsw_cache(c); // configuration (possibly) replaced, see create_collection
+                                    n.space.cache = Cache::Absent;
+                                    resync_after_error(&mut cx, &engine, Some(c), &mut n.space, "load_index[failed]", &attempted);
+                                }
+                            }
                         }
                     }
                 }
@@ -1574,7 +1760,14 @@ fn run_program(case_seed: u64, r: &mut Report, verbose: bool, scratch_base: &std
             15 => {
                 let c = *rng.pick(&coll_names);
                 let key = pick_key(&mut rng);
-                let dim = pick_dim(&mut rng);
+                let mut dim = pick_dim(&mut rng);
+                let mut oversize = false;
+                if let Some(md) = max_dim {
+                    if rng.chance(1, 15) {
+                        dim = md + 1 + rng.below(4);
+                        oversize = true;
+                    }
+                }
                 let n = colls.get_mut(c).unwrap();
                 let (v, kind) = gen_vec(&mut rng, dim, &pool_of(&n.space, dim));
                 let with_meta = rng.chance(1, 2);
@@ -1585,13 +1778,22 @@ fn run_program(case_seed: u64, r: &mut Report, verbose: bool, scratch_base: &std
                 cx.r.count(&format!("op:{}", api), 1);
                 match res {
                     Ok(()) => {
+                        if oversize {
+                            cx.r.inconclusive("a vector longer than max_dimension was accepted");
+                            return;
+                        }
                         if n.created && n.dim.map_or(false, |d| d != v.len()) {
                             cx.r.count("collection_dimension_constraint_not_enforced", 1);
                         }
                         n.space.put(&key, v, meta, api);
                         observe_repr(&mut cx, &engine, &format!("coll:{}:emb:{}", c, key));
                     }
-                    Err(_) => {}
+                    Err(_) => {
+                        // refused (dimension constraint of the collection / max_dimension)
+                        let failed: &'static str = if with_meta { "store_in_collection_with_metadata[failed]" } else { "store_in_collection[failed]" };
+                        cx.r.count(&format!("op:{}", failed), 1);
+                        resync_after_error(&mut cx, &engine, Some(c), &mut n.space, failed, &[(key.clone(), v.clone())]);
+                    }
                 }
             }
             16 => {
@@ -2870,6 +3072,632 @@ fn run_buildrace(case_seed: u64, r: &mut Report, verbose: bool) {
 }
 
 // ------------------------------------------------------------------------------------------------
+// part `partial`: operations that fail after part of their writes took effect, while an index is
+// cached. One case = one engine with `max_dimension` set; each round builds and caches an index over
+// the current vectors (quiescent, one search through it), issues ONE failing operation, brings the
+// model in line with what the engine holds now (`resync_after_error`) and judges searches exactly as
+// part `program` does: when a key's vector changed, the model's cache state is Stale(<api>[failed]),
+// the oracle is the exhaustive one and a failure cured by `invalidate_hnsw_cache` is a stale index.
+// ------------------------------------------------------------------------------------------------
+
+fn run_partial(case_seed: u64, r: &mut Report, verbose: bool, scratch_base: &std::path::Path) {
+    let mut rng = Rng::new(case_seed ^ 0xFA11ED);
+    let mut cx = Ctx { r, case_seed, part: "partial", trace: Vec::new(), verbose, step: 0 };
+    let dim = *rng.pick(&[2usize, 3, 4, 8, 8, 16, 24]);
+    let max_dim = dim + rng.below(3);
+    let cfg = {
+        let mut c = VectorEngineConfig::default();
+        c.sparse_threshold = *rng.pick(&[0.5f32, 0.5, 0.0, 0.3, 1.0]);
+        c.parallel_threshold = *rng.pick(&[5000usize, 5000, 4]);
+        c.batch_parallel_threshold = *rng.pick(&[100usize, 100, 2, 4, 8]);
+        c.max_dimension = Some(max_dim);
+        c
+    };
+    let batch_parallel_threshold = cfg.batch_parallel_threshold;
+    cx.log(format!("case: dim={} max_dimension={} sparse_threshold={} batch_parallel_threshold={}", dim, max_dim, cfg.sparse_threshold, batch_parallel_threshold));
+    let engine = match VectorEngine::with_config(cfg) {
+        Ok(e) => e,
+        Err(e) => {
+            cx.r.inconclusive(&format!("engine construction failed: {}", e));
+            return;
+        }
+    };
+    let mut def = Space::new("emb:");
+    let mut next_key = 0usize;
+    let n0 = 4 + rng.below(40);
+    let mut scratch: Option<Scratch> = None;
+    let rounds = 2 + rng.below(3);
+    for round in 0..rounds {
+        // ---- quiescent: refill, build + cache, one search through the fresh index
+        let want = if round == 0 { n0 } else { 6 };
+        while def.data.len() < want {
+            let key = format!("k{}", next_key);
+            next_key += 1;
+            let (v, _) = gen_vec(&mut rng, dim, &pool_of(&def, dim));
+            let meta = if rng.chance(1, 3) { gen_meta(&mut rng) } else { Md::new() };
+            let res = if meta.is_empty() { engine.store_embedding(&key, v.clone()) } else { engine.store_embedding_with_metadata(&key, v.clone(), meta_to_engine(&meta)) };
+            if res.is_err() {
+                cx.r.inconclusive("partial: store of a valid vector failed");
+                return;
+            }
+            def.put(&key, v, meta, "store_embedding");
+        }
+        let built = engine.build_and_cache_index(hnsw_cfg(&mut rng, Metric::Cos));
+        cx.log(format!("build_and_cache_index() over {} vectors -> {:?}", def.data.len(), built.as_ref().err()));
+        if built.is_err() {
+            cx.r.inconclusive("partial: build_and_cache_index failed");
+            return;
+        }
+        def.cache = Cache::Fresh;
+        {
+            cx.step += 1;
+            let q = gen_query(&mut rng, dim, &pool_of(&def, dim));
+            let k = 1 + rng.below(20);
+            judged_search(&mut cx, &engine, "search_similar", "default", "_default", &mut def, true, &q, k, Metric::Cos, None, false, &|| engine.search_similar(&q, k));
+        }
+
+        // ---- one failing operation
+        let keys: Vec<String> = def.data.keys().cloned().collect();
+        let over = |rng: &mut Rng| -> Vec<f32> { (0..max_dim + 1 + rng.below(4)).map(|_| rng.f64_in(-1.0, 1.0) as f32).collect() };
+        // elements of a multi-key operation: existing keys (overwritten) and new ones, unique
+        let gen_items = |rng: &mut Rng, next_key: &mut usize, n: usize, def: &Space| -> Vec<(String, Vec<f32>)> {
+            let mut items: Vec<(String, Vec<f32>)> = Vec::new();
+            for _ in 0..n {
+                let key = if rng.chance(3, 5) {
+                    rng.pick(&keys).clone()
+                } else {
+                    *next_key += 1;
+                    format!("k{}", *next_key - 1)
+                };
+                if items.iter().any(|(k, _)| *k == key) {
+                    continue;
+                }
+                // mostly a vector unlike the stored ones, so that an overwrite changes the ranking
+                let v = if rng.chance(1, 6) { gen_vec(rng, dim, &pool_of(def, dim)).0 } else { gen_vec(rng, dim, &[]).0 };
+                items.push((key, v));
+            }
+            items
+        };
+        let kind = rng.weighted(&[50, 18, 8, 8, 8, 8]);
+        let (api, attempted): (&'static str, Vec<(String, Vec<f32>)>) = match kind {
+            0 | 5 => {
+                // a batch with one element longer than max_dimension (kind 5: two of them)
+                let n = 1 + rng.below(11);
+                let mut items = gen_items(&mut rng, &mut next_key, n, &def);
+                let pos = if rng.bool() { items.len() } else { rng.below(items.len() + 1) };
+                next_key += 1;
+                items.insert(pos, (format!("k{}", next_key - 1), over(&mut rng)));
+                if kind == 5 {
+                    let pos = rng.below(items.len() + 1);
+                    next_key += 1;
+                    items.insert(pos, (format!("k{}", next_key - 1), over(&mut rng)));
+                }
+                if items.len() >= batch_parallel_threshold {
+                    cx.r.count("partial:batches_in_the_rayon_branch", 1);
+                } else {
+                    cx.r.count("partial:batches_in_the_sequential_branch", 1);
+                }
+                let res = engine.batch_store_embeddings(items.iter().map(|(k, v)| EmbeddingInput::new(k.clone(), v.clone())).collect());
+                cx.log(format!("batch_store_embeddings({:?}) -> {:?}", items.iter().map(|(k, v)| (k.as_str(), v.len())).collect::<Vec<_>>(), res.as_ref().map(|b| b.stored_keys.len()).map_err(|e| first_line(&e.to_string()))));
+                if res.is_ok() {
+                    cx.r.inconclusive("a vector longer than max_dimension was accepted");
+                    return;
+                }
+                ("batch_store_embeddings[failed]", items)
+            }
+            1 => {
+                // a file written by an engine without the limit, holding one entry that is too long
+                if scratch.is_none() {
+                    scratch = Some(Scratch::new(scratch_base, "c06p"));
+                }
+                let donor = VectorEngine::new();
+                let n = 1 + rng.below(8);
+                let mut items = gen_items(&mut rng, &mut next_key, n, &def);
+                next_key += 1;
+                items.push((format!("k{}", next_key - 1), over(&mut rng)));
+                for (k, v) in &items {
+                    let m = if rng.chance(1, 3) { gen_meta(&mut rng) } else { Md::new() };
+                    if donor.store_embedding_with_metadata(k, v.clone(), meta_to_engine(&m)).is_err() {
+                        cx.r.inconclusive("partial: donor engine refused a vector");
+                        return;
+                    }
+                }
+                let binary = rng.bool();
+                let path = scratch.as_ref().unwrap().join(&format!("donor{}.{}", round, if binary { "bin" } else { "json" }));
+                let saved = if binary { donor.save_index_binary(VectorEngine::DEFAULT_COLLECTION, &path) } else { donor.save_index(VectorEngine::DEFAULT_COLLECTION, &path) };
+                if saved.is_err() {
+                    cx.r.inconclusive("partial: donor engine could not save its index");
+                    return;
+                }
+                let res = if binary { engine.load_index_binary(&path) } else { engine.load_index(&path) };
+                cx.log(format!("load_index{}(file of another engine: {:?}) -> {:?}", if binary { "_binary" } else { "" }, items.iter().map(|(k, v)| (k.as_str(), v.len())).collect::<Vec<_>>(), res.as_ref().map_err(|e| first_line(&e.to_string()))));
+                if res.is_ok() {
+                    cx.r.inconclusive("a vector longer than max_dimension was accepted");
+                    return;
+                }
+                ("load_index[failed]", items)
+            }
+            2 | 3 => {
+                // a single store that is refused
+                let key = rng.pick(&keys).clone();
+                let v = over(&mut rng);
+                let (res, api): (_, &'static str) = if kind == 2 {
+                    (engine.store_embedding(&key, v.clone()), "store_embedding[failed]")
+                } else {
+                    (engine.store_embedding_with_metadata(&key, v.clone(), meta_to_engine(&gen_meta(&mut rng))), "store_embedding_with_metadata[failed]")
+                };
+                cx.log(format!("{}({:?}, dim {}) -> {:?}", api, key, v.len(), res.as_ref().err().map(|e| first_line(&e.to_string()))));
+                if res.is_ok() {
+                    cx.r.inconclusive("a vector longer than max_dimension was accepted");
+                    return;
+                }
+                (api, vec![(key, v)])
+            }
+            _ => {
+                // a batch refused by the up-front validation (an empty vector somewhere)
+                let n = 1 + rng.below(6);
+                let mut items = gen_items(&mut rng, &mut next_key, n, &def);
+                let pos = rng.below(items.len() + 1);
+                next_key += 1;
+                items.insert(pos, (format!("k{}", next_key - 1), Vec::new()));
+                let res = engine.batch_store_embeddings(items.iter().map(|(k, v)| EmbeddingInput::new(k.clone(), v.clone())).collect());
+                cx.log(format!("batch_store_embeddings({:?}) -> {:?}", items.iter().map(|(k, v)| (k.as_str(), v.len())).collect::<Vec<_>>(), res.as_ref().map(|b| b.stored_keys.len()).map_err(|e| first_line(&e.to_string()))));
+                if res.is_ok() {
+                    cx.violation("store:batch_store_embeddings:accepted-empty-vector".into(), "batch with an empty vector was accepted".into());
+                    return;
+                }
+                ("batch_store_embeddings[failed]", items)
+            }
+        };
+        cx.r.count("partial:failed_ops", 1);
+        cx.r.count(&format!("op:{}", api), 1);
+        // the vectors the operation touched, before and after: the queries that tell the states apart
+        let mut targeted: Vec<Vec<f32>> = Vec::new();
+        for (k, v) in &attempted {
+            if let Some(e) = def.data.get(k) {
+                targeted.push(e.v.clone());
+            }
+            targeted.push(v.clone());
+        }
+        targeted.retain(|v| v.len() == dim && v.iter().any(|x| x.abs() >= 1e-3));
+        let changed = resync_after_error(&mut cx, &engine, None, &mut def, api, &attempted);
+        if changed > 0 {
+            cx.r.count("partial:failed_ops_with_partial_effect", 1);
+        }
+
+        // ---- searches after the failed operation
+        let n_post = 3 + rng.below(3);
+        for j in 0..n_post {
+            cx.step += 1;
+            let q = if !targeted.is_empty() && (j < 2 || rng.bool()) { targeted[rng.below(targeted.len())].clone() } else { gen_query(&mut rng, dim, &pool_of(&def, dim)) };
+            let k = *rng.pick(&[1usize, 3, 10, def.data.len() + 5, 1000]);
+            cx.r.count("partial:searches_after_failed_op", 1);
+            if matches!(def.cache, Cache::Stale(_)) {
+                cx.r.count("partial:searches_after_partially_applied_op_with_index_cached_before", 1);
+            }
+            if rng.chance(1, 4) {
+                let f = gen_filter(&mut rng, 0);
+                let cond = f.cond();
+                let fc = Some(FilteredSearchConfig::post_filter().with_oversample(1 + rng.below(4)));
+                judged_search(&mut cx, &engine, "search_similar_filtered[post]", "default", "_default", &mut def, true, &q, k, Metric::Cos, Some(&f), true, &|| engine.search_similar_filtered(&q, k, &cond, fc.clone()));
+            } else {
+                judged_search(&mut cx, &engine, "search_similar", "default", "_default", &mut def, true, &q, k, Metric::Cos, None, false, &|| engine.search_similar(&q, k));
+            }
+        }
+    }
+    for (k, e) in &def.data {
+        check_readback(&mut cx, "get_embedding", k, engine.get_embedding(k), &e.v);
+    }
+    cx.r.count("partial_programs", 1);
+    if cx.r.want_sample() && rng.chance(1, 8) {
+        let t: Vec<&String> = cx.trace.iter().take(8).collect();
+        let s = json!({"part": "partial", "case_seed": case_seed, "first_operations": t});
+        cx.r.sample(s);
+    }
+}
+
+// ------------------------------------------------------------------------------------------------
+// part `bigk`: every search API with k (and ef) far above the number of stored vectors. The cases
+// run in child processes (see the header); `run_bigk_case` is what a child executes per case.
+// ------------------------------------------------------------------------------------------------
+
+const HUGE_KS: [usize; 15] = [
+    usize::MAX,
+    usize::MAX - 1,
+    usize::MAX / 2,
+    (usize::MAX / 2) + 1,
+    usize::MAX / 16,
+    1 << 60,
+    1 << 59,
+    1 << 40,
+    (1 << 32) + 1,
+    1 << 32,
+    u32::MAX as usize,
+    1 << 31,
+    // large, but harmless even for code that sizes a buffer from it
+    1_000_000,
+    100_000,
+    65_537,
+];
+
+/// `extreme_only`: values from 2^59 up, where a request for a buffer of k elements is refused with a
+/// panic (capacity overflow) that `catch_unwind` sees; otherwise the whole list
+fn pick_huge(rng: &mut Rng, extreme_only: bool) -> usize {
+    if rng.chance(1, 4) {
+        usize::MAX
+    } else if extreme_only {
+        *rng.pick(&HUGE_KS[..7])
+    } else {
+        *rng.pick(&HUGE_KS)
+    }
+}
+
+/// `search_with_hnsw` on an index built just before: cached-index oracle
+fn judged_explicit(cx: &mut Ctx, engine: &VectorEngine, index: &HNSWIndex, mapping: &[String], space: &Space, q: &[f32], k: usize, m: Metric) {
+    let api = "search_with_hnsw";
+    cx.r.count("search:search_with_hnsw", 1);
+    if k >= HUGE {
+        cx.r.count("huge-k:search_with_hnsw", 1);
+    }
+    progress("calling", cx.case_seed, api, k);
+    let out = catch_unwind(AssertUnwindSafe(|| engine.search_with_hnsw(index, mapping, q, k)));
+    progress("returned", cx.case_seed, api, k);
+    let n_same = space.data.values().filter(|e| e.v.len() == q.len()).count();
+    cx.eval(n_same >= 2);
+    match out {
+        Err(p) => cx.violation("cached:search_with_hnsw:panic".into(), format!("search_with_hnsw panicked: {} (k={}, {} indexed vectors)", first_line(&panic_msg(&p)), k, mapping.len())),
+        Ok(Err(e)) => cx.violation("error:search_with_hnsw".into(), format!("search_with_hnsw failed on a valid query: {} (k={})", e, k)),
+        Ok(Ok(res)) => {
+            cx.log(format!("search_with_hnsw[{}] k={} over {} nodes -> {}", m.name(), k, mapping.len(), fmt_res(&res)));
+            cx.r.count("judged:cached-mode", 1);
+            cx.r.count("cached-mode:results", res.len() as u64);
+            if let Err(b) = judge_common(&res, space, q, k, m, None) {
+                cx.violation(format!("cached:search_with_hnsw:{}", b.what), format!("index just built ({} metric), k={}; {}", m.name(), k, b.detail));
+            }
+        }
+    }
+}
+
+/// `HNSWIndex::search` / `search_with_ef` on an index the case filled itself; node id i is reported
+/// under the key "n<i>" of `space`: cached-index oracle (ids indexed, true scores, no duplicates,
+/// best first, at most k)
+fn judged_direct(cx: &mut Ctx, index: &HNSWIndex, space: &Space, q: &[f32], k: usize, ef: Option<usize>, m: Metric) {
+    let api = if ef.is_some() { "HNSWIndex::search_with_ef" } else { "HNSWIndex::search" };
+    cx.r.count(&format!("search:{}", api), 1);
+    if k >= HUGE || ef.map_or(false, |e| e >= HUGE) {
+        cx.r.count(&format!("huge-k:{}", api), 1);
+    }
+    progress("calling", cx.case_seed, api, k.max(ef.unwrap_or(0)));
+    let out = catch_unwind(AssertUnwindSafe(|| match ef {
+        None => index.search(q, k),
+        Some(e) => index.search_with_ef(q, k, e),
+    }));
+    progress("returned", cx.case_seed, api, k.max(ef.unwrap_or(0)));
+    cx.eval(space.data.len() >= 2);
+    let short_api = if ef.is_some() { "search_with_ef" } else { "search" };
+    match out {
+        Err(p) => cx.violation(format!("hnsw:{}:panic", short_api), format!("{} panicked: {} (k={}, ef={:?}, {} indexed vectors)", api, first_line(&panic_msg(&p)), k, ef, space.data.len())),
+        Ok(ids) => {
+            let res: Vec<SearchResult> = ids.iter().map(|(id, s)| SearchResult::new(format!("n{}", id), *s)).collect();
+            cx.log(format!("{}[{}] k={} ef={:?} over {} nodes -> {}", api, m.name(), k, ef, space.data.len(), fmt_res(&res)));
+            cx.r.count("judged:cached-mode", 1);
+            cx.r.count("cached-mode:results", res.len() as u64);
+            if let Err(b) = judge_common(&res, space, q, k, m, None) {
+                cx.violation(format!("hnsw:{}:{}", short_api, b.what), format!("{} on an index of {} vectors ({} metric), k={}, ef={:?}; {}", api, space.data.len(), m.name(), k, ef, b.detail));
+            }
+        }
+    }
+}
+
+/// Every case seed is executed twice: with the values from 2^59 up only (whatever panics there is
+/// reported by the usual oracles), then with the whole list (where the process may be killed).
+fn run_bigk_case(case_seed: u64, r: &mut Report, verbose: bool, extreme_only: bool) {
+    let mut rng = Rng::new(case_seed ^ 0xB16C);
+    let mut cx = Ctx { r, case_seed, part: "bigk", trace: Vec::new(), verbose, step: 0 };
+    let dim = *rng.pick(&[2usize, 3, 4, 8, 16]);
+    let n = 1 + rng.below(50);
+    let cfg = {
+        let mut c = VectorEngineConfig::default();
+        c.sparse_threshold = *rng.pick(&[0.5f32, 0.5, 0.0, 1.0]);
+        c.parallel_threshold = *rng.pick(&[5000usize, 5000, 4]);
+        c
+    };
+    let engine = match VectorEngine::with_config(cfg) {
+        Ok(e) => e,
+        Err(e) => {
+            cx.r.inconclusive(&format!("engine construction failed: {}", e));
+            return;
+        }
+    };
+    let mut def = Space::new("emb:");
+    let mixed = rng.chance(1, 6);
+    for i in 0..n {
+        let d = if mixed && rng.chance(1, 4) { dim + 1 } else { dim };
+        let (v, _) = gen_vec(&mut rng, d, &pool_of(&def, d));
+        let meta = if rng.chance(1, 2) { gen_meta(&mut rng) } else { Md::new() };
+        let key = format!("v{}", i);
+        let res = if meta.is_empty() { engine.store_embedding(&key, v.clone()) } else { engine.store_embedding_with_metadata(&key, v.clone(), meta_to_engine(&meta)) };
+        if res.is_err() {
+            cx.r.inconclusive("bigk: store of a valid vector failed");
+            return;
+        }
+        def.put(&key, v, meta, "store_embedding");
+    }
+    let cmetric = *rng.pick(&[Metric::Cos, Metric::Cos, Metric::Euc, Metric::Dot]);
+    if (cmetric != Metric::Cos || rng.bool()) && engine.create_collection("bk", VectorCollectionConfig::default().with_metric(cmetric.engine())).is_err() {
+        cx.r.inconclusive("bigk: create_collection failed");
+        return;
+    }
+    let mut named = Space::new("coll:bk:emb:");
+    let m = 1 + rng.below(30);
+    for i in 0..m {
+        let (v, _) = gen_vec(&mut rng, dim, &pool_of(&named, dim));
+        let meta = if rng.chance(1, 2) { gen_meta(&mut rng) } else { Md::new() };
+        let key = format!("c{}", i);
+        if engine.store_in_collection_with_metadata("bk", &key, v.clone(), meta_to_engine(&meta)).is_err() {
+            cx.r.inconclusive("bigk: store_in_collection of a valid vector failed");
+            return;
+        }
+        named.put(&key, v, meta, "store_in_collection_with_metadata");
+    }
+    cx.log(format!("case: dim={} default collection {} vectors{}, collection bk {} vectors ({})", dim, n, if mixed { " (mixed dimensions)" } else { "" }, m, cmetric.name()));
+
+    // the searches of the engine's own collections; judged in the mode the model's cache state allows
+    let engine_searches = |cx: &mut Ctx, rng: &mut Rng, def: &mut Space, named: &mut Space, rounds: usize| {
+        for _ in 0..rounds {
+            for which in 0..7 {
+                cx.step += 1;
+                let k = pick_huge(rng, extreme_only);
+                let space: &Space = if which < 4 { &*def } else { &*named };
+                let q = gen_query(rng, dim, &pool_of(space, dim));
+                let f = if rng.chance(1, 3) { F::True } else { gen_filter(rng, 0) };
+                let cond = f.cond();
+                let (fc, strat) = match rng.below(4) {
+                    0 => (None, FilterStrategy::Auto),
+                    1 => (Some(FilteredSearchConfig::pre_filter()), FilterStrategy::PreFilter),
+                    2 => (Some(FilteredSearchConfig::post_filter().with_oversample(1 + rng.below(4))), FilterStrategy::PostFilter),
+                    _ => (Some(FilteredSearchConfig::default()), FilterStrategy::Auto),
+                };
+                let uses_cache = strat != FilterStrategy::PreFilter;
+                match which {
+                    0 | 1 => judged_search(cx, &engine, "search_similar", "default", "_default", def, true, &q, k, Metric::Cos, None, false, &|| engine.search_similar(&q, k)),
+                    2 => {
+                        let mm = *rng.pick(&[Metric::Cos, Metric::Euc, Metric::Dot]);
+                        judged_search(cx, &engine, "search_similar_with_metric", "default", "_default", def, false, &q, k, mm, None, false, &|| engine.search_similar_with_metric(&q, k, mm.engine()));
+                    }
+                    3 => {
+                        let api: &'static str = match strat {
+                            FilterStrategy::PreFilter => "search_similar_filtered[pre]",
+                            FilterStrategy::PostFilter => "search_similar_filtered[post]",
+                            FilterStrategy::Auto => "search_similar_filtered[auto]",
+                        };
+                        judged_search(cx, &engine, api, "default", "_default", def, uses_cache, &q, k, Metric::Cos, Some(&f), uses_cache, &|| engine.search_similar_filtered(&q, k, &cond, fc.clone()));
+                    }
+                    4 | 5 => judged_search(cx, &engine, "search_in_collection", "collection", "bk", named, true, &q, k, cmetric, None, false, &|| engine.search_in_collection("bk", &q, k)),
+                    _ => {
+                        let api: &'static str = match strat {
+                            FilterStrategy::PreFilter => "search_filtered_in_collection[pre]",
+                            FilterStrategy::PostFilter => "search_filtered_in_collection[post]",
+                            FilterStrategy::Auto => "search_filtered_in_collection[auto]",
+                        };
+                        judged_search(cx, &engine, api, "collection", "bk", named, uses_cache, &q, k, cmetric, Some(&f), uses_cache, &|| engine.search_filtered_in_collection("bk", &q, k, &cond, fc.clone()));
+                    }
+                }
+            }
+        }
+    };
+
+    // ---- phase A: no index anywhere (exhaustive oracle: all stored vectors of the dimension, ranked)
+    engine_searches(&mut cx, &mut rng, &mut def, &mut named, 1);
+
+    // ---- phase B: indexes cached for both collections, data unchanged since
+    let same_dim = !mixed || def.dims().len() == 1;
+    if same_dim {
+        let built = engine.build_and_cache_index(hnsw_cfg(&mut rng, Metric::Cos));
+        cx.log(format!("build_and_cache_index() -> {:?}", built.as_ref().err()));
+        if built.is_ok() {
+            def.cache = Cache::Fresh;
+        }
+    }
+    {
+        let keys = engine.list_collection_keys("bk");
+        let mut vecs = Vec::new();
+        for k in &keys {
+            if let Ok(v) = engine.get_from_collection("bk", k) {
+                vecs.push(v);
+            }
+        }
+        if vecs.len() == keys.len() && !keys.is_empty() {
+            let index = HNSWIndex::with_config(hnsw_cfg(&mut rng, cmetric));
+            for v in vecs {
+                index.insert(v);
+            }
+            let mapping: Vec<String> = keys.iter().map(|k| format!("coll:bk:emb:{}", k)).collect();
+            engine.cache_hnsw_index("bk", Arc::new(index), mapping);
+            named.cache = Cache::Fresh;
+            cx.log(format!("cache_hnsw_index(bk, {} keys, metric {})", keys.len(), cmetric.name()));
+        }
+    }
+    engine_searches(&mut cx, &mut rng, &mut def, &mut named, 2);
+
+    // ---- phase C: explicit index, used immediately
+    if same_dim {
+        let hm = *rng.pick(&[Metric::Cos, Metric::Cos, Metric::Euc, Metric::Dot]);
+        let storage = if rng.bool() { HNSWStorageStrategy::Dense } else { HNSWStorageStrategy::Auto };
+        match engine.build_hnsw_index_with_options(HNSWBuildOptions { storage, hnsw_config: hnsw_cfg(&mut rng, hm) }) {
+            Err(e) => cx.log(format!("build_hnsw_index_with_options -> {}", e)),
+            Ok((index, mapping)) => {
+                for _ in 0..3 {
+                    cx.step += 1;
+                    let q = gen_query(&mut rng, dim, &pool_of(&def, dim));
+                    judged_explicit(&mut cx, &engine, &index, &mapping, &def, &q, pick_huge(&mut rng, extreme_only), hm);
+                    cx.step += 1;
+                    let xm = gen_xm(&mut rng);
+                    judged_rerank(&mut cx, &engine, &index, &mapping, &def, &q, pick_huge(&mut rng, extreme_only), &xm);
+                }
+            }
+        }
+    }
+
+    // ---- phase D: HNSWIndex::search / search_with_ef directly (k and ef)
+    {
+        let hm = *rng.pick(&[Metric::Cos, Metric::Cos, Metric::Euc, Metric::Dot]);
+        let index = HNSWIndex::with_config(hnsw_cfg(&mut rng, hm));
+        let mut direct = Space::new("hnsw-node:");
+        for e in def.data.values().filter(|e| e.v.len() == dim) {
+            let id = index.insert(e.v.clone());
+            direct.data.insert(format!("n{}", id), Entry { v: e.v.clone(), meta: Md::new() });
+        }
+        if !direct.data.is_empty() {
+            for _ in 0..3 {
+                cx.step += 1;
+                let q = gen_query(&mut rng, dim, &pool_of(&direct, dim));
+                judged_direct(&mut cx, &index, &direct, &q, pick_huge(&mut rng, extreme_only), None, hm);
+                cx.step += 1;
+                let small = |rng: &mut Rng| *rng.pick(&[0usize, 1, 2, 10, 200]);
+                let (k, ef) = match rng.below(3) {
+                    0 => (1 + small(&mut rng), pick_huge(&mut rng, extreme_only)),
+                    1 => (pick_huge(&mut rng, extreme_only), small(&mut rng)),
+                    _ => (pick_huge(&mut rng, extreme_only), pick_huge(&mut rng, extreme_only)),
+                };
+                judged_direct(&mut cx, &index, &direct, &q, k, Some(ef), hm);
+            }
+        }
+    }
+    cx.r.count("bigk_programs", 1);
+    cx.r.count(if extreme_only { "bigk_programs:k-from-2^59-up" } else { "bigk_programs:all-k" }, 1);
+    if cx.r.want_sample() && rng.chance(1, 8) {
+        let t: Vec<&String> = cx.trace.iter().take(8).collect();
+        let s = json!({"part": "bigk", "case_seed": case_seed, "first_operations": t});
+        cx.r.sample(s);
+    }
+}
+
+/// child process: cases `first..first+count` of the base seed (or the single case seed when `count`
+/// is 0); the report is rewritten after every case so that what was observed survives a kill
+fn child_bigk(rest: &[String]) {
+    quiet_panics();
+    let p = |i: usize| rest.get(i).cloned().unwrap_or_default();
+    let out = std::path::PathBuf::from(p(1));
+    let _ = PROGRESS.set(std::path::PathBuf::from(p(2)));
+    let base: u64 = p(3).parse().unwrap_or(1);
+    let first: u64 = p(4).parse().unwrap_or(0);
+    let count: u64 = p(5).parse().unwrap_or(0);
+    let verbose = p(6) == "verbose";
+    let mut rep = Report::new();
+    let seeds: Vec<u64> = if count == 0 { vec![base] } else { (first..first + count).map(|i| case_seed(base, i)).collect() };
+    for s in seeds {
+        for extreme_only in [true, false] {
+            progress("between-cases", s, "-", 0);
+            guarded("bigk", s, &mut rep, |r| run_bigk_case(s, r, verbose, extreme_only));
+            rep.count("cases", 1);
+            let tmp = out.with_extension("tmp");
+            if std::fs::write(&tmp, serde_json::to_string(&rep.to_json_with_hashes()).unwrap_or_default()).is_ok() {
+                let _ = std::fs::rename(&tmp, &out);
+            }
+        }
+    }
+    progress("finished", 0, "-", 0);
+}
+
+/// parent: run `children` child processes over `n_cases` cases (or one child for one case seed when
+/// `single` is given) and merge what they observed
+fn run_bigk_children(exe: &std::path::Path, scratch: &Scratch, base: u64, n_cases: u64, children: u64, single: Option<u64>, verbose: bool, wait_s: u64, total: &mut Report) {
+    use std::os::unix::process::ExitStatusExt;
+    use std::process::{Command, Stdio};
+    let children = if single.is_some() { 1 } else { children.max(1) };
+    let per = (n_cases + children - 1) / children;
+    let reports: Vec<Report> = std::thread::scope(|sc| {
+        let hs: Vec<_> = (0..children)
+            .map(|c| {
+                sc.spawn(move || {
+                    let mut r = Report::new();
+                    let out = scratch.join(&format!("bigk-{}.json", c));
+                    let prog = scratch.join(&format!("bigk-{}.progress", c));
+                    let (b, first, count) = match single {
+                        Some(s) => (s, 0, 0),
+                        None => (base, c * per, per.min(n_cases.saturating_sub(c * per))),
+                    };
+                    if single.is_none() && count == 0 {
+                        return r;
+                    }
+                    let script = format!(
+                        "ulimit -v 4000000; exec \"{}\" child-bigk \"{}\" \"{}\" {} {} {} {}",
+                        exe.display(),
+                        out.display(),
+                        prog.display(),
+                        b,
+                        first,
+                        count,
+                        if verbose { "verbose" } else { "quiet" }
+                    );
+                    let mut child = match Command::new("sh").arg("-c").arg(&script).stdout(Stdio::null()).stderr(if verbose { Stdio::inherit() } else { Stdio::null() }).spawn() {
+                        Ok(c) => c,
+                        Err(_) => {
+                            r.inconclusive("bigk: child process could not be started");
+                            return r;
+                        }
+                    };
+                    let t0 = Instant::now();
+                    let status = loop {
+                        match child.try_wait() {
+                            Ok(Some(s)) => break Some(s),
+                            Ok(None) => {
+                                if t0.elapsed().as_secs() > wait_s {
+                                    let _ = child.kill();
+                                    let _ = child.wait();
+                                    break None;
+                                }
+                                std::thread::sleep(std::time::Duration::from_millis(10));
+                            }
+                            Err(_) => break None,
+                        }
+                    };
+                    // what the child observed (complete cases only)
+                    if let Ok(s) = std::fs::read_to_string(&out) {
+                        if let Ok(v) = serde_json::from_str::<Value>(&s) {
+                            r.merge(Report::from_json(&v));
+                        }
+                    }
+                    r.count("bigk:child_processes", 1);
+                    let Some(status) = status else {
+                        r.inconclusive("bigk: child process did not finish in time");
+                        return r;
+                    };
+                    let last = std::fs::read_to_string(&prog).unwrap_or_default();
+                    let f: Vec<&str> = last.split('\t').collect();
+                    if status.success() && f.first() == Some(&"finished") {
+                        r.count("bigk:child_processes_completed", 1);
+                        return r;
+                    }
+                    if f.len() == 4 && f[0] == "calling" {
+                        let cs: u64 = f[1].parse().unwrap_or(0);
+                        r.violation(
+                            format!("huge-k:{}:process-killed", f[2]),
+                            format!(
+                                "{} with k (ef) = {} over at most 50 stored vectors did not return: the process ended with exit code {:?} / signal {:?} under a 4 GB address-space limit (an allocation sized from k aborts instead of unwinding)",
+                                f[2],
+                                f[3],
+                                status.code(),
+                                status.signal()
+                            ),
+                            json!({"part": "bigk", "case_seed": cs}),
+                        );
+                    } else {
+                        r.inconclusive(&format!("bigk: child process ended abnormally outside a search (exit code {:?}, signal {:?}, last record {:?})", status.code(), status.signal(), f.first()));
+                    }
+                    r
+                })
+            })
+            .collect();
+        hs.into_iter().map(|h| h.join().unwrap_or_else(|_| Report::new())).collect()
+    });
+    for r in reports {
+        total.merge(r);
+    }
+}
+
+// ------------------------------------------------------------------------------------------------
 // `--probe 1`: the minimal witnesses of the defects this monitor found, run against the real code
 // ------------------------------------------------------------------------------------------------
 
@@ -3018,8 +3846,14 @@ fn guarded(part: &'static str, case_seed: u64, r: &mut Report, f: impl FnOnce(&m
 
 fn main() {
     let args = Args::parse();
+    if args.rest.first().map(|s| s.as_str()) == Some("child-bigk") {
+        child_bigk(&args.rest);
+        return;
+    }
     let started = Instant::now();
     quiet_panics();
+    let exe = std::env::current_exe().unwrap_or_else(|_| std::path::PathBuf::from("c06"));
+    let bigk_scratch = Scratch::new(&args.scratch, "c06k");
     let mut total = Report::new();
     total.max_samples = 4;
     let verbose = args.extra_u64("verbose", 0) > 0;
@@ -3038,6 +3872,7 @@ fn main() {
 
     let mut single = false;
     let mut only_concurrent = false;
+    let mut only_new = false;
     if let Some(p) = &args.replay {
         single = true;
         let v: Value = serde_json::from_str(&std::fs::read_to_string(p).expect("replay file")).expect("json");
@@ -3054,6 +3889,8 @@ fn main() {
                 "rerank" => guarded("rerank", seed, &mut one, |r| run_rerank(seed, r, attempt == 0)),
                 "concurrent" => guarded("concurrent", seed, &mut one, |r| run_concurrent(seed, r, attempt == 0, false)),
                 "buildrace" => guarded("buildrace", seed, &mut one, |r| run_buildrace(seed, r, attempt == 0)),
+                "partial" => guarded("partial", seed, &mut one, |r| run_partial(seed, r, attempt == 0, &scratch_base)),
+                "bigk" => run_bigk_children(&exe, &bigk_scratch, 0, 1, 1, Some(seed), attempt == 0, 600, &mut one),
                 _ => guarded("program", seed, &mut one, |r| run_program(seed, r, attempt == 0, &scratch_base)),
             }
             let hit = match &want {
@@ -3078,9 +3915,23 @@ fn main() {
             guarded("concurrent", seed, &mut total, |r| run_concurrent(seed, r, verbose, false));
         } else if args.extra.get("part").map(|s| s.as_str()) == Some("buildrace") {
             guarded("buildrace", seed, &mut total, |r| run_buildrace(seed, r, verbose));
+        } else if args.extra.get("part").map(|s| s.as_str()) == Some("partial") {
+            guarded("partial", seed, &mut total, |r| run_partial(seed, r, verbose, &scratch_base));
+        } else if args.extra.get("part").map(|s| s.as_str()) == Some("bigk") {
+            // in this process (a search that kills the process is part of what is being looked at)
+            guarded("bigk", seed, &mut total, |r| run_bigk_case(seed, r, verbose, true));
+            guarded("bigk", seed, &mut total, |r| run_bigk_case(seed, r, verbose, false));
         } else {
             guarded("program", seed, &mut total, |r| run_program(seed, r, verbose, &scratch_base));
         }
+    } else if args.extra.get("part").map(|s| s.as_str()) == Some("new") {
+        // development aid: parts partial and bigk alone
+        only_new = true;
+        let n = args.by_tier(400u64, 40_000u64);
+        let sb = scratch_base.clone();
+        let rep = par_cases(args.threads, args.seed ^ 0xFA, n, args.budget(10, 120), move |_i, s, r| guarded("partial", s, r, |r| run_partial(s, r, false, &sb)));
+        total.merge(rep);
+        run_bigk_children(&exe, &bigk_scratch, args.seed ^ 0xB1, args.by_tier(160, 6_000), args.by_tier((args.threads as u64 / 4).max(2), args.threads as u64), None, false, args.by_tier(300, 1_200), &mut total);
     } else if args.extra.get("part").map(|s| s.as_str()) == Some("concurrent") {
         // development aid: the concurrent part alone (floors of the other parts will be unmet)
         only_concurrent = true;
@@ -3110,8 +3961,33 @@ fn main() {
         let n = args.by_tier(60u64, 3_000u64);
         let rep = par_cases((args.threads / 2).max(2), args.seed ^ 0xBD, n, args.budget(5, 90), |_i, s, r| guarded("buildrace", s, r, |r| run_buildrace(s, r, false)));
         total.merge(rep);
+        let n = args.by_tier(400u64, 40_000u64);
+        let sb = scratch_base.clone();
+        let rep = par_cases(args.threads, args.seed ^ 0xFA, n, args.budget(10, 120), move |_i, s, r| guarded("partial", s, r, |r| run_partial(s, r, false, &sb)));
+        total.merge(rep);
+        // child processes; the wait is a watchdog only (a child that does not finish is inconclusive)
+        run_bigk_children(&exe, &bigk_scratch, args.seed ^ 0xB1, args.by_tier(160, 6_000), args.by_tier((args.threads as u64 / 4).max(2), args.threads as u64), None, false, args.by_tier(300, 1_200), &mut total);
     }
+    drop(bigk_scratch);
 
+    let new_floors: Vec<(&'static str, u64)> = vec![
+        ("partial_programs", 100),
+        ("partial:failed_ops", 300),
+        ("partial:failed_ops_with_partial_effect", 100),
+        ("partial:batches_in_the_sequential_branch", 40),
+        ("partial:batches_in_the_rayon_branch", 20),
+        ("op:load_index[failed]", 20),
+        ("partial:searches_after_partially_applied_op_with_index_cached_before", 300),
+        ("failed-op:keys_read_back", 1_000),
+        ("bigk_programs", 60),
+        ("bigk:child_processes_completed", 2),
+        ("huge-k:exhaustive-mode", 300),
+        ("huge-k:cached-mode", 300),
+        ("huge-k:search_with_hnsw", 60),
+        ("huge-k:search_with_hnsw_and_metric", 60),
+        ("huge-k:HNSWIndex::search", 60),
+        ("huge-k:HNSWIndex::search_with_ef", 60),
+    ];
     let concurrent_floors: Vec<(&'static str, u64)> = vec![
         ("concurrent:rounds", 40),
         ("concurrent:mutations_during_searches", 60),
@@ -3124,7 +4000,7 @@ fn main() {
     ];
     let meta = Meta {
         property: "C06",
-        rule: "one evaluation = one search call of the real VectorEngine judged against the f64 reference scorer over the shadow model (exhaustive oracle: exact top-k modulo eps-ties at the k-th boundary, order, scores, no deleted/overwritten/other-dimension vector; cached-index oracle while the data is unchanged since the build: keys stored, true scores, no duplicates, ordered, <= k); distinct by hash(case seed, step); non-trivial when at least 2 stored vectors have the query's dimension; part concurrent: the same per search, for searches called after all threads were joined and for searches recorded while a mutator thread ran (judged by the state(s) their tick bracket allows); part buildrace: the same per search called after a build that raced with mutations was joined",
+        rule: "one evaluation = one search call of the real VectorEngine judged against the f64 reference scorer over the shadow model (exhaustive oracle: exact top-k modulo eps-ties at the k-th boundary, order, scores, no deleted/overwritten/other-dimension vector; cached-index oracle while the data is unchanged since the build: keys stored, true scores, no duplicates, ordered, <= k); distinct by hash(case seed, step); non-trivial when at least 2 stored vectors have the query's dimension; part concurrent: the same per search, for searches called after all threads were joined and for searches recorded while a mutator thread ran (judged by the state(s) their tick bracket allows); part buildrace: the same per search called after a build that raced with mutations was joined; part partial: the same per search called after an operation failed (the model first follows what the engine holds for every key the failed operation named: a changed vector is a data change after the cached build); part bigk: the same per search called with k (ef) between 65537 and usize::MAX over at most 50 stored vectors, executed in child processes",
         assumptions: vec![
             "score tolerance = 1e-4 relative + 1e-6 absolute, relative to max(|score|, sum|q_i v_i| (normalised by the norms for cosine)): an f32 SIMD dot product is accurate relative to the size of its terms, not of a cancelling result".into(),
             "cosine score of a stored zero vector is taken as 0 (the engine's documented convention); queries are non-zero; no NaN/inf; every non-zero vector has a component >= 1e-3 of its scale so f32 norms neither underflow nor overflow".into(),
@@ -3137,10 +4013,14 @@ fn main() {
             "an index handed to cache_hnsw_index for a named collection maps node ids to storage keys (the convention of vector_engine's own test) and is withdrawn by the program when the collection's configuration is replaced (create_collection / load_index)".into(),
             "part concurrent: a call is taken to precede another when its closing tick (drawn after it returned) is smaller than the other's opening tick (drawn before it was called) on one SeqCst counter; a search is judged exactly only when no mutation of its collection overlaps it, otherwise each returned key may carry the score of any vector it held between the search's start and end and the choice of keys is not judged; indexes are built and cached only while no other thread runs; one mutator thread per collection, so the order of a collection's mutations is the program order".into(),
             "part buildrace: build_and_cache_index overlapping mutations of the default collection is judged only after both threads were joined and only with the cached-index oracle over the final data (keys stored, true score of the current vector, no duplicates, ordered, <= k): it holds for an engine that kept no index and for one that kept an index reflecting every completed mutation, and says nothing about which of the two the engine chose; a build that fails because a vector vanished under it is accepted (nothing may then be cached)".into(),
+            "failing operations (parts partial and program): VectorEngineConfig::max_dimension is the only documented way to make a store fail after the up-front validation; regular vectors and queries respect it. The statement does not say that a failing operation is atomic, so nothing is demanded about WHICH of its writes took effect: every key it named is read back through get_embedding and must hold the vector it held before or the vector the operation was writing (metadata is taken from get_metadata); from then on that state is the data, and an index cached before a changed key may not be consulted".into(),
+            "part bigk: k and ef are plain usize arguments and the statement promises 'the k, or all if fewer' for every k, so a search with k up to usize::MAX over a few vectors must return (exhaustive oracle without an index, cached-index oracle through one). The cases run in child processes with a 4 GB address-space limit because a buffer sized from k aborts the process instead of unwinding; values between 2^20 and 2^31, where such a buffer would merely be large, are not used. A child killed inside a search = violation huge-k:<api>:process-killed; a child that ends abnormally elsewhere or does not finish within the watchdog = inconclusive".into(),
             "hostile key names (keys starting with \"emb:\", empty key, non-ASCII) are used in 1 of 8 programs".into(),
         ],
         floors: if single {
             vec![]
+        } else if only_new {
+            new_floors
         } else if only_concurrent {
             concurrent_floors
         } else {
@@ -3183,6 +4063,7 @@ fn main() {
                 ("distinct_nontrivial", 2_000),
             ];
             f.extend(concurrent_floors);
+            f.extend(new_floors);
             f
         },
         exhaustive: false,
